@@ -9,7 +9,10 @@ ID = 'C09'
 LEVEL = 'proof'
 THEOREMS = [('DebInspector.Thm.C09', ['Props.C09.license_typed', 'Props.C09.formatted_typed', 'Props.C09.copyright_typed', 'Props.C09.wsSep_typed',
                                       'Props.C09.single_typed', 'Props.C09.extra_typed', 'Props.C09.statement_eq', 'Props.C09.isYearRange_eq_spec',
-                                      'Props.C09.classify_header', 'Props.C09.classify_files', 'Props.C09.classify_license', 'Props.C09.yearSpec_isYearRange'])]
+                                      'Props.C09.classify_header', 'Props.C09.classify_files', 'Props.C09.classify_license', 'Props.C09.yearSpec_isYearRange']),
+            ('DebInspector.Thm.C09G', ['Props.C09G.sound_from_groups', 'Props.C09G.typed_value', 'Props.C09G.para_typed', 'Props.C09G.para_matches',
+                                       'Props.C09G.files_valid', 'Props.C09G.mergeUnknown_id', 'Props.C09G.foldLicense_id', 'Props.C09G.lineSep_typed']),
+            ('DebInspector.Thm.C09D', ['Props.C09D.sound', 'Props.C09D.parse_spells'])]
 TRUSTED = [
     'Lean 4.33.0 kernel',
     'reading of the property as Props.C09.holdsOn over the document grammar of Props/Dep5.lean (typed values written from the copyright-format specification)',
@@ -20,13 +23,15 @@ ASSUMPTIONS = ['text blocks start with a paragraph line (a verbatim or marker fi
 RULE = ('documents with a header paragraph and 0-4 files / stand-alone license paragraphs, shuffled field order, either spelling of licence and any label case, multi-line copyright and '
         'license values with blank-line markers and verbatim lines, extra fields in any paragraph, year ranges with punctuation and statements without years; the stored copyright files '
         'through the correspondence only. non-trivial = at least two paragraphs')
-TECHNIQUE = ('Lean 4 theorems: for every field of the DEP-5 grammar the converter of its kind gives exactly the typed value the document spells (six kinds), classification by field names, year-range test = specification '
-             '+ executable typed-value specification over whole documents evaluated on every implementation observation + correspondence with the hand model')
-LEVEL_TEXT = ('Proved in Lean 4, for every field of the grammar (any number and content of continuation lines): the converter of its kind applied to the field text as written gives exactly the typed value the document spells - '
-              'license: short name = first line, text = decoded continuation lines (markers -> blank lines, verbatim lines keep their indentation) (license_typed); formatted text, whether it starts on the declaration line or on the first continuation line (formatted_typed); '
-              'copyright: one statement per line, split into a leading year range and the holder exactly as the specification splits it (copyright_typed, statement_eq, isYearRange_eq_spec on ASCII words); white-space lists (wsSep_typed); single lines (single_typed); '
-              'unknown fields kept verbatim (extra_typed). And: a group with a Format field is a header, with Files and no Format a files paragraph, with License and neither a license paragraph (classify_*). '
-              'That a whole document goes through the pipeline paragraph by paragraph (parse, from_fields, lookup of each field, no merge or fold on well-formed documents) and the validity clause are decided by the executable specification on every implementation observation and by correspondence, not by theorem.')
+TECHNIQUE = ('Lean 4 theorem Props.C09D.sound: for every well-formed DEP-5 document the model of the whole pipeline (text -> tracked field groups -> typed paragraphs -> recovery rewrites -> validity) satisfies the property '
+             '+ the same executable specification evaluated on every implementation observation + correspondence with the hand model')
+LEVEL_TEXT = ('Props.C09D.sound: for every well-formed machine-readable copyright document of the grammar (any number of paragraphs, fields in any order, any case of the names, Licence or License, any number of empty lines between paragraphs; '
+              'single-line, white-space-list, copyright, license, formatted-text, line-list and unknown fields with any number of continuation lines) the model of DebianCopyright.from_text returns one paragraph per document paragraph, in order, of the class the document gives it, '
+              'whose typed fields are exactly the document\'s and whose unknown fields are kept as extra data in order; the object is valid exactly when the document has a files paragraph. '
+              'Steps, each a theorem: the line-tracking parser returns field groups that spell the paragraphs (parse_spells, through the loop theorem of C06 with licence respelled); from_fields keeps every field under its own name without renaming (addFields_para), '
+              'every known field gets the converter of its class and the converter gives the typed value the document spells (typed_value: single_typed, wsSep_typed, copyright_typed with statement_eq and isYearRange_eq_spec for Unicode digits, license_typed, formatted_typed, lineSep_typed), '
+              'absent fields hold the value of an absent field (para_matches), the two recovery rewrites leave a document without catch-all paragraphs alone (mergeUnknown_id, foldLicense_id), a files paragraph of the grammar is valid (files_valid). '
+              'Two defects of the code were found by the excluded points of these proofs (F15: continuation lines starting with a non-ASCII white space; a files paragraph with a Format-Specification field is classified as a header: left outside the grammar).')
 LEVEL_NOTE = ('Trusted: Lean kernel; axioms propext, Classical.choice, Quot.sound only; the whole-document plumbing rests on specification evaluation + correspondence.')
 
 DATA = os.path.join(os.environ.get('VERIF_REPO', '/repo'), 'tests', 'data')
